@@ -48,7 +48,7 @@ CONSTANTS
   Kinds,      \* frame kinds offered to Call: subset of {"plain","gen","lazy"}
   MaxCalls,   \* top-level calls per thread (0 = unbounded, trace validation only)
   MaxDepth,   \* live frames per thread
-  MaxItems,   \* items yielded per generator
+  MaxItems,   \* items yielded per generator (0 = unbounded, trace validation only)
   Variant,    \* "property" | "pinned" | "union"
   Transient   \* TRUE: setlocale may fail for an installed locale as well
 
@@ -266,16 +266,16 @@ YieldHolding(t) ==   \* DEVIATION (pinned): `yield` inside the `with`
   LET r == Run(t) IN
   /\ Pinned /\ r # 0
   /\ LET f == frames[t][r] IN
-       /\ f.pc = "in" /\ f.k = "gen" /\ f.hold /\ f.n < MaxItems
-       /\ SetF(t, r, [f EXCEPT !.pc = "susp", !.n = @ + 1])
+       /\ f.pc = "in" /\ f.k = "gen" /\ f.hold /\ (MaxItems = 0 \/ f.n < MaxItems)
+       /\ SetF(t, r, [f EXCEPT !.pc = "susp", !.n = IF MaxItems = 0 THEN 0 ELSE @ + 1])
   /\ UNCHANGED <<inst, lc0, lc, owner, calls>>
 
 Yield(t) ==
   LET r == Run(t) IN
   /\ r # 0
   /\ LET f == frames[t][r] IN
-       /\ f.pc = "out" /\ f.n < MaxItems
-       /\ SetF(t, r, [f EXCEPT !.pc = "susp", !.n = @ + 1])
+       /\ f.pc = "out" /\ (MaxItems = 0 \/ f.n < MaxItems)
+       /\ SetF(t, r, [f EXCEPT !.pc = "susp", !.n = IF MaxItems = 0 THEN 0 ELSE @ + 1])
   /\ UNCHANGED <<inst, lc0, lc, owner, calls>>
 
 Return(t) ==         \* an exhausted generator that holds nothing
